@@ -58,6 +58,7 @@ func judgeEvents(r *Run, w *World, e *Engine) {
 	}
 	i := 0
 	nInit := 0
+	lastGen := 0
 	for i < len(evs) {
 		ev := evs[i]
 		if ev.Kind != "InitStart" {
@@ -110,12 +111,17 @@ func judgeEvents(r *Run, w *World, e *Engine) {
 		r.Check(nRTDone <= 1, "C15.grammar", "initialisation #%d emitted %d init-runtime-done events", nInit, nRTDone)
 		report := evs[j]
 		// which generation is this? the one whose first exec request falls into [start step, report step]
+		// (generations only grow: an initialisation that follows a failed one within the same step - a runtime that
+		// could not be launched, retried at once by the invocation - is not the earlier one)
 		gen := 0
 		for _, q := range w.Sup.Requests() {
-			if q.Kind == "exec" && q.Step >= ev.Step && q.Step <= report.Step {
+			if q.Kind == "exec" && q.Step >= ev.Step && q.Step <= report.Step && genOf(q.Name) > lastGen {
 				gen = genOf(q.Name)
 				break
 			}
+		}
+		if gen != 0 {
+			lastGen = gen
 		}
 		// extension status lines: one per extension known at that moment
 		if gen != 0 {
